@@ -1,5 +1,6 @@
 """Per-property checks at the scheduler level."""
 import sched_checks as S
+import gen_checks as G
 
 MC = "model_checking"
 
@@ -27,6 +28,12 @@ def generic(prop, quick_cfgs, thorough_cfgs, qruns=600, truns=6000, qscripts=300
         if not c.quick:
             batches.append(("random-big", rnd(c, truns // 6, maxj=30, maxn=8)))
         S.conformance(c, batches, hook_limit=150 if c.quick else 1500)
+        # the same property one level up: freshly generated Flow / Parallel code (monitor DirSys.tla)
+        if c.quick:
+            G.pipeline(c, 80, 60, 4, seed_off=50)
+        else:
+            for r in range(3):
+                G.pipeline(c, 300, 200, 10, seed_off=50 + r)
         c.assumptions += ["the hooks report what the scheduler does (add-only one-line calls, tag verif)",
                           "stamps are a linearization of the API events (mutex-ordered log)",
                           "TLC bounds: see tlc_runs; beyond them only simulation and conformance"]
@@ -68,6 +75,8 @@ def c12(c):
                 c.inconclusive.append("race report outside cff code in batch %s (harness?): %s" % (name, rep[:300]))
         if r.returncode not in (0, 66):
             c.inconclusive.append("driver %s exited with %d: %s" % (name, r.returncode, text[-500:]))
+    # generated code under the race detector (early returns on failure / cancellation included)
+    G.pipeline(c, 60 if c.quick else 400, 40 if c.quick else 300, 4 if c.quick else 10, seed_off=70, race=True, par_exec=4)
     c.assumptions += ["the race detector sees only the executions that were run; its happens-before analysis generalises "
                       "over the interleavings of each of them", "driver bodies are race-free by construction (no shared state)"]
     c.cov["distinct_nontrivial"] = c.cov["evaluations"]
